@@ -22,6 +22,8 @@ package funcs
 // a match: every capture is written under its name with the type of the captured value, and
 // true is returned
 //@ func Grok
+// a subject that exists always goes through the compiled expression
+//@ ensures[C12] old(funcExpr.Grok) != nil && ncalls((*Task).GetKeyConv2Str) == 1 && callres((*Task).GetKeyConv2Str, 0, 1) == nil && (len(funcExpr.Param) != 3 || funcExpr.Param[2].NodeType == ast.TypeBoolLiteral) ==> ncalls((*grok.GrokRegexp).RunWithTypeInfo) == 1
 //@ ensures[C12] ncalls((*PlReg).ReturnAppend) == 1 && callarg((*PlReg).ReturnAppend, 0, 2) == ast.Bool && typeis(callarg((*PlReg).ReturnAppend, 0, 1), bool)
 //@ ensures[C12] ncalls((*Task).GetKeyConv2Str) == 1 && callres((*Task).GetKeyConv2Str, 0, 1) != nil ==> result == nil && !callarg((*PlReg).ReturnAppend, 0, 1).(bool) && ncalls(addKey2PtWithVal) == 0
 //@ ensures[C12] ncalls((*grok.GrokRegexp).RunWithTypeInfo) <= 1
@@ -54,6 +56,9 @@ package funcs
 // not a string literal): the failure note is written and the point's time stays; otherwise the
 // key is dropped and the point's time is the parsed instant
 //@ func DefaultTime
+// a subject that exists always goes to the time parser (unless the zone argument is not a string constant: failure note)
+//@ ensures[C12] ncalls((*Task).GetKeyConv2Str) == 1 && callres((*Task).GetKeyConv2Str, 0, 1) == nil && (len(funcExpr.Param) <= 1 || funcExpr.Param[1].NodeType == ast.TypeStringLiteral) ==> ncalls(TimestampHandle) == 1
+//@ ensures[C12] ncalls((*Task).GetKeyConv2Str) == 1 && callres((*Task).GetKeyConv2Str, 0, 1) == nil && len(funcExpr.Param) > 1 && funcExpr.Param[1].NodeType != ast.TypeStringLiteral ==> ncalls(TimestampHandle) == 0 && ncalls(usePointTime) == 1
 //@ ensures[C12] ncalls((*Task).GetKeyConv2Str) == 1 && callres((*Task).GetKeyConv2Str, 0, 1) != nil ==> result == nil && ncalls(TimestampHandle) == 0 && ncalls(usePointTime) == 0 && ncalls(setPointTime) == 0 && ncalls(deletePtKey) == 0
 //@ ensures[C12] ncalls(TimestampHandle) <= 1
 //@ ensures[C12] ncalls(TimestampHandle) == 1 ==> callarg(TimestampHandle, 0, 0) == callres((*Task).GetKeyConv2Str, 0, 0) && callarg(TimestampHandle, 0, 1) == (len(funcExpr.Param) > 1 ? funcExpr.Param[1].elem.(*ast.StringLiteral).Val : "")
@@ -76,6 +81,8 @@ package funcs
 // the obfuscated text of the subject goes back under the same key; a text that cannot be
 // obfuscated, or an absent subject, writes nothing
 //@ func SQLCover
+// a subject that exists always goes through the engine (no shortcut decides that a text needs no masking)
+//@ ensures[C12] ncalls((*Task).GetKeyConv2Str) == 1 && callres((*Task).GetKeyConv2Str, 0, 1) == nil ==> ncalls(obfuscatedResource) == 1
 //@ ensures[C12] ncalls((*Task).GetKeyConv2Str) == 1 && callres((*Task).GetKeyConv2Str, 0, 1) != nil ==> result == nil && ncalls(addKey2PtWithVal) == 0
 //@ ensures[C12] ncalls(obfuscatedResource) <= 1 && (ncalls(obfuscatedResource) == 1 ==> callarg(obfuscatedResource, 0, 1) == "sql" && callarg(obfuscatedResource, 0, 2) == callres((*Task).GetKeyConv2Str, 0, 0))
 //@ ensures[C12] ncalls(obfuscatedResource) == 1 && callres(obfuscatedResource, 0, 1) != nil ==> result == nil && ncalls(addKey2PtWithVal) == 0
@@ -87,6 +94,10 @@ package funcs
 // stored as a string under field; no subject, an unparsable document, a bad expression or no
 // matching node write nothing
 //@ func XML
+// a subject that exists is always parsed, a parsed document always queried, a selected node always stored
+//@ ensures[C12] ncalls((*Task).GetKeyConv2Str) == 1 && callres((*Task).GetKeyConv2Str, 0, 1) == nil ==> ncalls(xmlquery.Parse) == 1 && ncalls(strings.NewReader) == 1 && callarg(xmlquery.Parse, 0, 0) == callres(strings.NewReader, 0, 0)
+//@ ensures[C12] ncalls(xmlquery.Parse) == 1 && callres(xmlquery.Parse, 0, 1) == nil ==> ncalls(xmlquery.Query) == 1
+//@ ensures[C12] ncalls(xmlquery.Query) == 1 && callres(xmlquery.Query, 0, 1) == nil && callres(xmlquery.Query, 0, 0) != nil ==> ncalls(addKey2PtWithVal) == 1
 //@ ensures[C12] ncalls((*Task).GetKeyConv2Str) == 1 && callres((*Task).GetKeyConv2Str, 0, 1) != nil ==> result == nil && ncalls(addKey2PtWithVal) == 0
 //@ ensures[C12] ncalls((*Task).GetKeyConv2Str) <= 1 && (ncalls((*Task).GetKeyConv2Str) == 1 ==> callarg((*Task).GetKeyConv2Str, 0, 1) == callres(getKeyName, 0, 0))
 //@ ensures[C12] ncalls(strings.NewReader) == 1 ==> callarg(strings.NewReader, 0, 0) == callres((*Task).GetKeyConv2Str, 0, 0)
@@ -100,6 +111,8 @@ package funcs
 // datetime(k, precision, fmt): the formatted text goes back under k as a string; an absent
 // subject is a no-op; a value that cannot be formatted is a script error and writes nothing
 //@ func DateTime
+// a subject that exists is always formatted
+//@ ensures[C12] ncalls((*Task).GetKey) == 1 && callres((*Task).GetKey, 0, 1) == nil ==> ncalls(DateFormatHandle) == 1
 //@ ensures[C12] ncalls((*Task).GetKey) == 1 && callres((*Task).GetKey, 0, 1) != nil ==> result == nil && ncalls(addKey2PtWithVal) == 0
 //@ ensures[C12] ncalls(DateFormatHandle) <= 1 && (ncalls(DateFormatHandle) == 1 ==> callarg(DateFormatHandle, 0, 0) == callres((*Task).GetKey, 0, 0).Value && callarg(DateFormatHandle, 0, 1) == funcExpr.Param[1].elem.(*ast.StringLiteral).Val && callarg(DateFormatHandle, 0, 2) == funcExpr.Param[2].elem.(*ast.StringLiteral).Val)
 //@ ensures[C12] ncalls(DateFormatHandle) == 1 && callres(DateFormatHandle, 0, 1) != nil ==> result != nil && ncalls(addKey2PtWithVal) == 0
